@@ -171,8 +171,67 @@ def order_shard(ctx, sh):
     ctx.cov['sub_checks']['order_variants'] = ctx.cov['sub_checks'].get('order_variants', 0) + len(variants)
 
 
+# ---- whole derive: the declared error type (any path form) must be the `type Error` and the Err side of the result
+E_ERRS = ['Er', 'm::Er', 'Er<T>', "Er<'a>", 'm::Er<T, U>', '::m::Er', 'Er<X<T>>']
+E_ITEMS = ["struct S<'a, T, U> { a: &'a T, b: U }", 'enum E<T> { A(T), B }']
+
+
+def error_type_shard(ctx, sh):
+    import synmodel, c13
+    from engine import SymStr
+    from build import TRAIT_NAMES
+    e = ctx.engine()
+    synmodel.install(e)
+    item = E_ITEMS[sh['item']]
+    uni = [n for n in TRAIT_NAMES if n.startswith('try') and not (item.startswith('enum') and 'existing' in n)]
+
+    def run(eng):
+        atom = z3.Int('nm')
+        eng.assume(z3.And(atom >= 0, atom < len(uni)))
+        ev = z3.Int('er')
+        eng.assume(z3.And(ev >= 0, ev < len(E_ERRS)))
+        k = eng.decide([(i, ev == i) for i in range(len(E_ERRS))])
+        text = '#[SYM(X<T>, %s)] %s' % (E_ERRS[k], item)
+        eng.aux['w'] = (text, k)
+        return c13.outcome(eng, text, {'SYM': SymStr(atom, uni)})
+    res = e.explore(run)
+    ctx.absorb(e, res)
+    wit = []
+    for r in res:
+        if r.kind != 'ok':
+            ctx.inconclusive.append('engine panic in C04 (error types): %s' % r.value); continue
+        text, k = r.aux['w']
+        mdl = ctx.model_of(r.pc)
+        wit.append((r, text.replace('SYM', uni[mdl.eval(z3.Int('nm'), model_completion=True).as_long()]), k))
+    nat = ctx.replay.run_many([w[1] for w in wit])
+    nows = lambda x: re.sub(r'\s+', '', x)
+    for (r, src, k), n in zip(wit, nat):
+        out = r.value
+        if (out[0] == 'ok' and n['status'] == 'ok' and out[1] == expander.flat_text(n['out'])) or (out[0] != 'ok' and n['status'] == out[0]):
+            ctx.cov['traces_validated_against_impl'] += 1
+        else:
+            ctx.inconclusive.append('ENCODING-MISMATCH (C04 error types): %s :: engine %s native %s' % (src, out[0], n['status']))
+            continue
+        if n['status'] != 'ok' or not (n['parse'] or '').startswith('ok'):
+            continue
+        want = nows(E_ERRS[k])
+        for im in n['impls']:
+            tys = [x for x in im['items'].split(' ;; ') if x.startswith('type:Error:')]
+            fns = [x for x in im['items'].split(' ;; ') if x.startswith('fn:')]
+            got = nows(tys[0].split(':', 2)[2]) if tys else None
+            sig = nows(fns[0].split(':', 2)[2]) if fns else ''
+            okk = got == want and sig.endswith(',%s>' % want)
+            ctx.cov['queries']['unsat' if okk else 'sat'] += 1
+            if not okk:
+                form = 'generic-arguments' if '<' in E_ERRS[k] else 'path'
+                ctx.violation('error-type', form, 'declared error type `%s`, generated `type Error = %s` and signature `%s`' % (E_ERRS[k], got, sig[-60:]), {'input': src, 'impl': im['text'][:1000]})
+    if wit:
+        ctx.sample({'part': 'error types (whole derive)', 'input': wit[len(wit) // 2][1]})
+    ctx.cov['sub_checks']['error_type_paths'] = ctx.cov['sub_checks'].get('error_type_paths', 0) + len(wit)
+
+
 def body(ctx):
-    ctx.cov['outside_claim'] = ['more than 3 instructions', 'two instructions for the same counterpart (duplicates are C15)', 'generic error types are probed by kernels (TypePath::from) not by this sweep']
+    ctx.cov['outside_claim'] = ['more than 3 instructions', 'two instructions for the same counterpart (duplicates are C15)', 'error types beyond the menu of the error-type part']
     ctx.assumptions = ['oracle: README list of 12 kinds + shortcut table parsed at check time (oracle/docs.py)', 'library models; predicted == real output per path']
     expander.sweep(ctx, ['c04'], per_path)
     shards = []
@@ -180,6 +239,8 @@ def body(ctx):
         for lo in range(0, 36, 6 if ctx.tier == 'thorough' else 12):
             shards.append({'item': item, 'lo': lo, 'hi': lo + (6 if ctx.tier == 'thorough' else 4)})
     ctx.run_shards(order_shard, shards)
+    ctx.cov['bounds']['error_types'] = {'declared': E_ERRS, 'items': E_ITEMS, 'instruction_name': 'symbolic over the 12 fallible names'}
+    ctx.run_shards(error_type_shard, [{'item': i} for i in range(len(E_ITEMS))])
 
 
 if __name__ == '__main__':
